@@ -16,8 +16,9 @@ _WORKER_RUN = None
 
 
 def _worker_path(prefix):
-    pack, contract, rlimit = _WORKER_RUN
+    pack, contract, rlimit, xc = _WORKER_RUN
     run = FunctionRun(pack, contract, rlimit)
+    run.cross_check = xc
     run.worklist = []
     out = {"status": "ok", "message": "", "results": [], "covered": set(), "completed": 0, "outcomes": {},
            "canary": None, "samples": [], "new": []}
@@ -58,13 +59,15 @@ class FunctionRun:
         self.sample_paths = []
         self.jobs = jobs
         self.called = set()
+        self.cross_check = 0   # per path: how many discharged obligations get a cvc5 second opinion (thorough tier)
+        self.xcount = 0
 
     def _run_parallel(self, mod, fnode):
         """Explore paths in forked worker processes (each path is independent given its decision prefix)."""
         import concurrent.futures as cf
         import multiprocessing as mp
         global _WORKER_RUN
-        _WORKER_RUN = (self.pack, self.contract, self.rlimit)
+        _WORKER_RUN = (self.pack, self.contract, self.rlimit, self.cross_check)
         ctxm = mp.get_context("fork")
         with cf.ProcessPoolExecutor(max_workers=self.jobs, mp_context=ctxm) as ex:
             pending = set()
